@@ -822,6 +822,130 @@ theorem walk_covers_full_generic (q : Quant K) (hq : LawfulQuant q) (hc : Lawful
     refine ⟨⟨?_, ?_⟩, ⟨?_, ?_⟩, ⟨?_, ?_⟩⟩ <;> linarith [hgx.1, hgx.2, hgz.1, hgz.2]
   · exact hcov h0 i j t i0 i1 j0 j1 (not_lt.1 hlt) t1 ox1 ox2 oz1 oz2
 
+/-! ## the loop ends -/
+
+/-- what a step that goes on has checked (any scalar type): the shifted ranges have not left the field -/
+theorem stepWith_cont_notleft {K : Type} [Num K] (h : HF3 K) (d : V3 K) (maxToi tx tz : K) (s s' : St)
+    (hstep : stepWith h d maxToi tx tz s = .cont s') :
+    ∃ di dj : Int, cellMove d tx tz = some (di, dj) ∧ ¬ (di = 0 ∧ dj = 0) ∧
+      s'.ri = (s.ri.1 + di, s.ri.2 + di) ∧ s'.rj = (s.rj.1 + dj, s.rj.2 + dj) ∧
+      ¬ ((0 ≤ d.z ∧ (h.ni : Int) ≤ s.ri.1 + di) ∨ (d.z ≤ 0 ∧ s.ri.2 + di ≤ 0)) ∧
+      ¬ ((0 ≤ d.x ∧ (h.nj : Int) ≤ s.rj.1 + dj) ∨ (d.x ≤ 0 ∧ s.rj.2 + dj ≤ 0)) := by
+  unfold stepWith at hstep
+  split at hstep
+  · cases hstep
+  · split at hstep
+    · cases hstep
+    · rename_i di dj hcm
+      split at hstep
+      · cases hstep
+      · rename_i h0
+        simp only at hstep
+        split at hstep
+        · cases hstep
+        · rename_i hl
+          injection hstep with hstep
+          subst hstep
+          simp only [Bool.or_eq_true, Bool.and_eq_true, decide_eq_true_eq, not_or] at hl
+          exact ⟨di, dj, hcm, h0, rfl, rfl, not_or.2 hl.1, not_or.2 hl.2⟩
+
+/-- each component of a cell move is 0 or the `signum` of the velocity component -/
+theorem cellMove_components {K : Type} [Num K] (d : V3 K) (tx tz : K) (di dj : Int) (hcm : cellMove d tx tz = some (di, dj)) :
+    (di = 0 ∨ sgn d.z = some di) ∧ (dj = 0 ∨ sgn d.x = some dj) := by
+  unfold cellMove at hcm
+  simp only at hcm
+  split at hcm
+  · cases hcm
+  · cases hcm
+  · rename_i a b ha hb
+    injection hcm with hcm
+    injection hcm with e1 e2
+    subst e1; subst e2
+    constructor
+    · split at hb
+      · exact Or.inr hb
+      · injection hb with hb; exact Or.inl hb.symm
+    · split at ha
+      · exact Or.inr ha
+      · injection ha with ha; exact Or.inl ha.symm
+
+/-- how many more shifts the range of an axis can make before it has left the field on the side of the motion -/
+def axisPot (d : K) (n : Nat) (r : Int × Int) : Int := if 0 < d then (n : Int) - r.1 else if d < 0 then r.2 else 0
+
+private theorem sgn_cases (x : K) (m : Int) (hs : @sgn K (fieldNum K sq) x = some m) : (0 < x ∧ m = 1) ∨ (x < 0 ∧ m = -1) := by
+  unfold sgn at hs
+  split at hs
+  · rename_i hp; injection hs with hs; exact Or.inl ⟨hp, hs.symm⟩
+  · split at hs
+    · rename_i hn; injection hs with hs; exact Or.inr ⟨hn, hs.symm⟩
+    · cases hs
+
+/-- one axis of a step that goes on: the potential stays non-negative and drops by `|m|` -/
+private theorem axisPot_step (d : K) (n : Nat) (r : Int × Int) (m : Int) (hm : m = 0 ∨ @sgn K (fieldNum K sq) d = some m)
+    (hnl : ¬ ((0 ≤ d ∧ (n : Int) ≤ r.1 + m) ∨ (d ≤ 0 ∧ r.2 + m ≤ 0))) :
+    0 ≤ axisPot d n (r.1 + m, r.2 + m) ∧ axisPot d n r = axisPot d n (r.1 + m, r.2 + m) + (if m = 0 then 0 else 1) := by
+  simp only [not_or, not_and, not_le] at hnl
+  unfold axisPot
+  rcases lt_trichotomy d 0 with hneg | hzero | hpos
+  · have h1 : ¬ (0 < d) := not_lt.2 (le_of_lt hneg)
+    have h2 := hnl.2 (le_of_lt hneg)
+    simp only [h1, if_false, hneg, if_true]
+    rcases hm with hm | hm
+    · subst hm; simp at h2 ⊢; omega
+    · rcases sgn_cases sq d m hm with ⟨hp, _⟩ | ⟨_, hm'⟩
+      · exact absurd hp h1
+      · subst hm'; simp at h2 ⊢; omega
+  · subst hzero
+    simp only [lt_irrefl, if_false]
+    rcases hm with hm | hm
+    · subst hm; simp
+    · rcases sgn_cases sq 0 m hm with ⟨hp, _⟩ | ⟨hn, _⟩
+      · exact absurd hp (lt_irrefl _)
+      · exact absurd hn (lt_irrefl _)
+  · have h2 := hnl.1 (le_of_lt hpos)
+    simp only [hpos, if_true]
+    rcases hm with hm | hm
+    · subst hm; simp at h2 ⊢; omega
+    · rcases sgn_cases sq d m hm with ⟨_, hm'⟩ | ⟨hn, _⟩
+      · subst hm'; simp at h2 ⊢; omega
+      · exact absurd hn (not_lt.2 (le_of_lt hpos))
+
+/-- **The loop ends.**  Whatever the boundary times are, every step that goes on shifts a range towards the side the box is moving
+to, and the loop stops as soon as a range has left the field there: with more fuel than the number of shifts the two ranges can
+still make (`axisPot`), the loop does not run out of fuel. -/
+theorem walkLoop_terminates (h : HF3 K) (d : V3 K) (maxToi : K) (tx tz : St → K) (n : Nat) (s : St)
+    (hfuel : max 0 (axisPot d.x h.nj s.rj) + max 0 (axisPot d.z h.ni s.ri) < (n : Int)) :
+    ∀ out, walkLoop (fun s => @stepWith K (fieldNum K sq) h d maxToi (tx s) (tz s) s) n s ≠ .fuelExhausted out := by
+  letI := fieldNum K sq
+  induction n generalizing s with
+  | zero =>
+    intro out
+    have h1 := le_max_left 0 (axisPot d.x h.nj s.rj)
+    have h2 := le_max_left 0 (axisPot d.z h.ni s.ri)
+    simp only [Nat.cast_zero] at hfuel
+    omega
+  | succ n ih =>
+    intro out
+    unfold walkLoop
+    split
+    · intro hc; cases hc
+    · intro hc; cases hc
+    · rename_i s' hst
+      obtain ⟨di, dj, hcm, hne, hri, hrj, hli, hlj⟩ := stepWith_cont_notleft h d maxToi _ _ s s' hst
+      obtain ⟨hdi, hdj⟩ := cellMove_components d _ _ di dj hcm
+      obtain ⟨px0, pxe⟩ := axisPot_step sq d.x h.nj s.rj dj hdj hlj
+      obtain ⟨pz0, pze⟩ := axisPot_step sq d.z h.ni s.ri di hdi hli
+      refine ih s' ?_ out
+      rw [hri, hrj, max_eq_right px0, max_eq_right pz0]
+      have e1 : max 0 (axisPot d.x h.nj s.rj) = axisPot d.x h.nj s.rj := max_eq_right (by rw [pxe]; split <;> omega)
+      have e2 : max 0 (axisPot d.z h.ni s.ri) = axisPot d.z h.ni s.ri := max_eq_right (by rw [pze]; split <;> omega)
+      rw [e1, e2, pxe, pze] at hfuel
+      push_cast at hfuel
+      have : (if dj = 0 then (0 : Int) else 1) + (if di = 0 then (0 : Int) else 1) ≥ 1 := by
+        by_cases a : dj = 0 <;> by_cases b : di = 0 <;> simp [a, b]
+        exact hne ⟨b, a⟩
+      omega
+
 /-- non-vacuity of `walk_covers_full_generic` / `walkLoop_covers_path`: 4 × 4 unit cells on `[-2, 2]²`, a box of half-width `1/4`
 centred in cell `(0, 0)` moving along `(1, 0, 1/2)` for `max_time_of_impact = 2`: the walk ends normally (first `break`), its trace
 holds the 3 × 3 start block, then column 3 and row 3 as the centre crosses `x = 0` (t = 3/2) and `z = -1` (t = 1) — in particular
